@@ -516,7 +516,8 @@ def gen_ignored_op(r, P, k):
 
 
 RANGE_OPS = ['al', 'sl', 'aq', 'aq', 'aq', 'aq', 'sq', 'sq', 'ri', 'ri', 'rv', 'av', 'rs', 'sc', 'of', 'cv', 'fx', 'ct', 'fl', 'rli',
-             'up', 'alf', 'aqf', 'ala', 'aqd', 'aqd', 'aqd', 'aqd', 'aqd', 'aqd', 'sci', 'nz']
+             'up', 'alf', 'aqf', 'ala', 'aqd', 'aqd', 'aqd', 'aqd', 'aqd', 'aqd', 'sci', 'nz', 'ao', 'ai', 'fxs', 'rif', 'rvf', 'lec', 'lic']
+WRAPPER_OPS = ('ao', 'ai', 'fxs', 'rif', 'rvf', 'lec', 'lic')
 
 
 def gen_op(r, ref, malformed, obj=False, rmode=False):
@@ -544,7 +545,8 @@ def gen_op(r, ref, malformed, obj=False, rmode=False):
         def inl():
             return r.choice(L) if L and r.random() < .85 else anyl()
         k = r.choice(['al', 'al', 'sl', 'aq', 'aq', 'aq', 'sq', 'sq', 'ri', 'rv', 'av', 'rs', 'sc', 'of', 'cv', 'fx', 'ct', 'fl',
-                      'rl', 'rl', 'rli', 'cl', 'up', 'alf', 'aqf', 'ala', 'aqd', 'sci', 'sci', 'nz', 'nz'])
+                      'rl', 'rl', 'rli', 'cl', 'up', 'alf', 'aqf', 'ala', 'aqd', 'sci', 'sci', 'nz', 'nz',
+                      'ao', 'ai', 'fxs', 'rif', 'rvf', 'lec', 'lec', 'lic'])
     if k in ('sci', 'nz') and not malformed:
         return gen_ignored_op(r, ref, k)
     if malformed:
@@ -580,6 +582,34 @@ def gen_op(r, ref, malformed, obj=False, rmode=False):
         if k == 'aqf':
             u = anyl()
             return (k, [(anyl(), 'zz', q8(r)), r.choice([(u, u, q8(r)), (u, bl, q8(r))]), (anyl(), 'zq', q8(r))])
+    if k == 'ao':
+        return (k, q8(r, 40))
+    if k == 'ai':
+        u, v = inl(), inl()
+        while v == u:
+            v = anyl()
+        return (k, u, v, q8(r))
+    if k == 'fxs':
+        vs = r.sample(L, r.randint(0, min(3, len(L)))) if L else []
+        return (k, [(v, F(r.choice([-1, 0, 1, 1, 2]))) for v in vs], r.choice(['dict', 'pairs', 'iter']))
+    if k == 'rif':
+        ks = sorted(ref.quad, key=lambda s: sorted(map(lab, s)))
+        ps = [tuple(kk) if r.random() < .5 else tuple(kk)[::-1] for kk in r.sample(ks, r.randint(0, min(3, len(ks))))]
+        return (k, ps, r.choice(['list', 'iter']))
+    if k == 'rvf':
+        vs = r.sample(L, r.randint(0, min(3, len(L)))) if L else []
+        return (k, vs, r.choice(['list', 'iter']))
+    if k in ('lec', 'lic'):
+        # terms on old and new labels, a label may appear in several terms (the array back-end folds the square of a variable
+        # natively); small integer / half-integer coefficients keep every float32 intermediate exact
+        terms = [(inl(), F(r.choice([-2, -1, 1, 1, 2, 3]) if k == 'lic' else r.choice([-4, -2, -1, 1, 2, 2, 4, 6]), 1 if k == 'lic' else 2)) for _ in range(r.randint(0, 4))]
+        if terms and r.random() < .3:
+            terms.append((terms[0][0], terms[-1][1] if r.random() < .5 else -terms[0][1]))
+        lm = F(r.choice([-1, 1, 1, 2, 4, 1]), r.choice([1, 1, 2]))
+        if k == 'lec':
+            return (k, terms, lm, F(r.choice([-4, -2, -1, 0, 1, 2, 3]), 2), r.choice(['list', 'iter']))
+        lo = r.randint(-3, 2)
+        return (k, terms, lm, r.choice(['c', 'k1', 7]), r.randint(-1, 1), lo, lo + r.choice([0, 0, 1, 2, 3, 5]), r.choice(['list', 'iter']))
     if k in ('al', 'sl'):
         return (k, inl(), q8(r))
     if k in ('aq', 'sq'):
@@ -707,6 +737,8 @@ def proto_ok(x):
 def line_of(via, op, ref):
     """protocol line for the Lean model; wrong-typed arguments become the `xx` (malformed) op"""
     k = op[0]
+    if k in WRAPPER_OPS:
+        return None          # thin wrappers of the Python layer: no model op, the model is re-loaded with the state after
     if k in ('sci', 'nz'):
         # `Bqm.vScaleIgnoring` / `Bqm.vNormalize` (DimodModel/BqmScaleIgn.lean): the ignored containers as lists
         iv, ii, io = op[-5:-2]
@@ -803,6 +835,15 @@ def src_of(name, op, selfname='b'):
         if k == 'sci':
             return f'{name}.scale({float(op[1])!r}{kw})'
         return f'{name}.normalize({rv(op[1])}' + (f', {rv(op[2])}' if op[2] is not None else '') + kw + ')'
+    wrap = lambda how, lit: f'dict({lit})' if how == 'dict' else f'iter({lit})' if how == 'iter' else lit
+    if k == 'ao': return f'{name}.add_offset({a[0]!r})'
+    if k == 'ai': return f'{name}.add_interaction({a[0]!r}, {a[1]!r}, {a[2]!r})'
+    if k == 'fxs': return f'{name}.fix_variables({wrap(op[2], repr([(v, pyval(x)) for v, x in op[1]]))})'
+    if k == 'rif': return f'{name}.remove_interactions_from({wrap(op[2], repr(list(op[1])))})'
+    if k == 'rvf': return f'{name}.remove_variables_from({wrap(op[2], repr(list(op[1])))})'
+    if k == 'lec': return f'{name}.add_linear_equality_constraint({wrap(op[4], repr([(v, pyval(x)) for v, x in op[1]]))}, {float(op[2])!r}, {float(op[3])!r})'
+    if k == 'lic': return (f'{name}.add_linear_inequality_constraint({wrap(op[7], repr([(v, int(x)) for v, x in op[1]]))}, {float(op[2])!r}, {op[3]!r}, '
+                           f'constant={op[4]!r}, lb={op[5]!r}, ub={op[6]!r})')
     if k == 'alf': return f'{name}.add_linear_from({[(v, pyval(x)) for v, x in op[1]]!r})'
     if k == 'aqf': return f'{name}.add_quadratic_from({[(u, v, pyval(x)) for u, v, x in op[1]]!r})'
     if k == 'ala': return f'{name}.add_linear_from_array({[float(x) for x in op[1]]!r})'
@@ -869,6 +910,22 @@ def apply_real(obj, op, base):
         else:
             o = op[1]
             obj.update(mk(o.vt, [(v, float(o.lin[v])) for v in o.labels], [(tuple(kk), float(x)) for kk, x in o.quad.items()], float(o.off), base.dtype))
+    elif k in WRAPPER_OPS:
+        import warnings
+        wrap = lambda how, x: dict(x) if how == 'dict' else iter(x) if how == 'iter' else x
+        with warnings.catch_warnings():
+            warnings.simplefilter('ignore')
+            if k == 'ao': obj.add_offset(a[0])
+            elif k == 'ai': obj.add_interaction(a[0], a[1], a[2])
+            elif k == 'fxs': obj.fix_variables(wrap(op[2], [(v, pyval(x)) for v, x in op[1]]))
+            elif k == 'rif': obj.remove_interactions_from(wrap(op[2], list(op[1])))
+            elif k == 'rvf': obj.remove_variables_from(wrap(op[2], list(op[1])))
+            elif k == 'lec': obj.add_linear_equality_constraint(wrap(op[4], [(v, pyval(x)) for v, x in op[1]]), float(op[2]), float(op[3]))
+            elif k == 'lic':
+                got = obj.add_linear_inequality_constraint(wrap(op[7], [(v, int(x)) for v, x in op[1]]), float(op[2]), op[3], constant=op[4], lb=op[5], ub=op[6])
+                exp = [(f'slack_{op[3]}_{j}', c) for j, c in enumerate(slack_coefficients(op))]
+                if [(v, int(c)) for v, c in got] != exp:
+                    raise AssertionError(f'add_linear_inequality_constraint returned the slack terms {got!r}, the documented decomposition is {exp!r}')
     elif k == 'alf': obj.add_linear_from([(v, pyval(x)) for v, x in op[1]])
     elif k == 'aqf': obj.add_quadratic_from([(u, v, pyval(x)) for u, v, x in op[1]])
     elif k == 'ala': obj.add_linear_from_array([float(x) for x in op[1]])
@@ -879,12 +936,53 @@ def apply_real(obj, op, base):
         raise AssertionError(k)
 
 
-BULK = ('alf', 'aqf', 'up', 'ala', 'aqd')
+def slack_coefficients(op):
+    """`add_linear_inequality_constraint` as documented: lb <= sum a_i x_i + constant <= ub becomes the equality
+    sum a_i x_i + sum b_j slack_j - ub_c = 0 with b = 1, 2, 4, ..., 2**(n-1), S - 2**n + 1 for S = ub_c - lb_c, n = floor(log2 S);
+    [] when S = 0 or the constraint holds for every assignment; None when it is infeasible (ValueError)"""
+    terms, const, lb, ub = op[1], op[4], op[5], op[6]
+    hi = sum(x for _, x in terms if x > 0); lo = sum(x for _, x in terms if x < 0)
+    ub_c, lb_c = min(hi, ub - const), max(lo, lb - const)
+    if hi <= ub_c and lo >= lb_c:
+        return []
+    if ub_c < lb_c:
+        return None
+    S = int(ub_c - lb_c)
+    if S == 0:
+        return []
+    n = S.bit_length() - 1
+    return [2 ** j for j in range(n)] + ([S - 2 ** n + 1] if S - 2 ** n >= 0 else [])
+
+
+def ref_equality(P, terms, lm, c):
+    """P += lm * (sum a_i x_i + c) ** 2, expanded exactly: x * x = x (BINARY) or 1 (SPIN); every pair of distinct variables
+    named by the terms gets an interaction (also one with bias 0)"""
+    A = {}
+    for v, a in terms:
+        P.ensure(v)
+        A[v] = A.get(v, F(0)) + a
+    P.off += lm * c * c
+    for v, a in A.items():
+        if P.vt == 'BINARY':
+            P.lin[v] += lm * (a * a + 2 * a * c)
+        else:
+            P.lin[v] += 2 * lm * a * c
+            P.off += lm * a * a
+    vs = list(A)
+    for i, u in enumerate(vs):
+        for v in vs[i + 1:]:
+            P.quad[pkey(u, v)] = P.quad.get(pkey(u, v), F(0)) + 2 * lm * A[u] * A[v]
+    return True
+
+
+BULK = ('alf', 'aqf', 'up', 'ala', 'aqd', 'fxs', 'rif', 'rvf')
 SITE = {'sci': 'scale(ignored)', 'nz': 'normalize', 'al': 'add_linear', 'sl': 'set_linear', 'aq': 'add_quadratic', 'sq': 'set_quadratic', 'ri': 'remove_interaction',
         'rv': 'remove_variable', 'av': 'add_variable', 'rs': 'resize', 'sc': 'scale', 'of': 'offset.setter',
         'cv': 'change_vartype', 'fx': 'fix_variable', 'ct': 'contract_variables', 'fl': 'flip_variable',
         'rl': 'relabel_variables', 'rli': 'relabel_variables_as_integers', 'cl': 'clear', 'up': 'update',
-        'alf': 'add_linear_from', 'aqf': 'add_quadratic_from', 'ala': 'add_linear_from_array', 'aqd': 'add_quadratic_from_dense'}
+        'alf': 'add_linear_from', 'aqf': 'add_quadratic_from', 'ala': 'add_linear_from_array', 'aqd': 'add_quadratic_from_dense',
+        'ao': 'add_offset', 'ai': 'add_interaction', 'fxs': 'fix_variables', 'rif': 'remove_interactions_from', 'rvf': 'remove_variables_from',
+        'lec': 'add_linear_equality_constraint', 'lic': 'add_linear_inequality_constraint'}
 
 
 def apply_ref(P, op, selfref):
@@ -953,6 +1051,35 @@ def apply_ref(P, op, selfref):
             if not hashable(u) or not hashable(v) or not num(b) or u == v: return False
             P.add_quadratic(u, v, b)
         return True
+    if k == 'ao':
+        P.off += a[0]; return True
+    if k == 'ai': return P.add_quadratic(a[0], a[1], a[2])
+    if k == 'fxs':
+        items = list(dict(a[0]).items()) if a[1] == 'dict' else a[0]
+        for v, x in items:
+            if not P.fix_variable(v, x): return False
+        return True
+    if k == 'rif':
+        for u, v in a[0]:
+            if not P.remove_interaction(u, v): return False
+        return True
+    if k == 'rvf':
+        for v in a[0]:
+            if not P.remove_variable(v): return False
+        return True
+    if k == 'lec': return ref_equality(P, a[0], a[1], a[2])
+    if k == 'lic':
+        sl = slack_coefficients(op)
+        if sl is None:
+            return False
+        hi = sum(x for _, x in a[0] if x > 0); lo = sum(x for _, x in a[0] if x < 0)
+        ub_c, lb_c = min(hi, a[5] - a[3]), max(lo, a[4] - a[3])
+        if hi <= ub_c and lo >= lb_c:
+            return True                                   # nothing to enforce: the model is left alone
+        names = [f'slack_{a[2]}_{j}' for j in range(len(sl))]
+        for nm in names:
+            P.ensure(nm)
+        return ref_equality(P, list(a[0]) + [(nm, F(c)) for nm, c in zip(names, sl)], a[1], F(-ub_c))
     raise AssertionError(k)
 
 
@@ -1053,6 +1180,9 @@ def bqm_history(ctx, r, dt, nops, lines, expect, meta, malformed_rate, script=No
         # precision guard: cut the history before an op whose exact result does not fit the dtype
         if not all(fits(x, MANT[dt]) for x in new.values() + P.values() + [getattr(P, 'scalar', F(1)), getattr(P, 'invscalar', F(1))]):
             ctx.tick('cut_for_precision')
+            break
+        if k in ('lec', 'lic') and not all(fits(x, MANT[dt] - 6) for x in new.values() + before.values()):
+            ctx.tick('cut_for_precision')     # several native additions per coefficient: head room for the intermediate sums
             break
         # ---- model line(s)
         ln = line_of(via, op, ref.convert(tv))
